@@ -189,6 +189,28 @@ impl Check {
 
     /// Write the part evidence, print KNOWN-FINDING / VIOLATION lines, return the exit code.
     pub fn finish(self) -> i32 {
+        if let Ok(path) = std::env::var("XS_REPLAY") {
+            // replay mode: no files are written; report whether the recorded signature recurs
+            let want = std::fs::read_to_string(&path)
+                .ok()
+                .and_then(|s| serde_json::from_str::<Value>(&s).ok())
+                .and_then(|d| d["signature"].as_str().map(|s| s.to_string()))
+                .unwrap_or_default();
+            let vio = self.violations.into_inner().unwrap();
+            for (sig, (v, _)) in vio.iter() {
+                println!("REPLAY-VIOLATION signature={} {}", sig, v.detail);
+            }
+            let merr = self.machinery_errors.into_inner().unwrap();
+            for e in &merr {
+                eprintln!("MACHINERY: {}", e);
+            }
+            if vio.contains_key(&want) {
+                println!("REPRODUCED property={} signature={}", self.id, want);
+                return 1;
+            }
+            println!("NOT-REPRODUCED property={} signature={}", self.id, want);
+            return if merr.is_empty() { 0 } else { 2 };
+        }
         let root = verif_root();
         let known = load_known(&root, &self.id);
         let wall = self.start.elapsed().as_secs_f64();
